@@ -28,6 +28,47 @@ fn eval_one(src: &str) -> String {
     }
 }
 
+
+/// C05 witness search: every node's span lies inside its parent's span (statements, expressions, def / lambda parameters
+/// with their name, type annotation and default value).
+fn span_violations(src: &str) -> Result<Vec<String>, String> {
+    use starlark_syntax::codemap::Span;
+    use starlark_syntax::syntax::ast::*;
+    use starlark_syntax::syntax::uniplate::Visit;
+    let m = AstModule::parse("span.star", src.to_owned(), &Dialect::AllOptionsInternal).map_err(|e| first_line(&e.to_string()))?;
+    fn inside(c: Span, p: Span) -> bool { p.begin().get() <= c.begin().get() && c.end().get() <= p.end().get() }
+    fn params(ps: &[AstParameter], parent: Span, out: &mut Vec<String>) {
+        for p in ps {
+            if !inside(p.span, parent) { out.push(format!("parameter {:?} outside parent {:?}", p.span, parent)); }
+            let (id, ty, def) = match &p.node {
+                ParameterP::Normal(n, t, d) => (Some(n.span), t.as_ref().map(|t| t.span), d.as_ref().map(|d| d.span)),
+                ParameterP::Args(n, t) | ParameterP::KwArgs(n, t) => (Some(n.span), t.as_ref().map(|t| t.span), None),
+                _ => (None, None, None),
+            };
+            for (what, c) in [("name", id), ("type", ty), ("default", def)] {
+                if let Some(c) = c {
+                    if !inside(c, p.span) { out.push(format!("{} {:?} outside its parameter {:?}", what, c, p.span)); }
+                }
+            }
+        }
+    }
+    fn walk(v: Visit<AstNoPayload>, out: &mut Vec<String>) {
+        let me = match &v { Visit::Stmt(s) => s.span, Visit::Expr(e) => e.span };
+        match &v {
+            Visit::Stmt(s) => if let StmtP::Def(d) = &s.node { params(&d.params, me, out); },
+            Visit::Expr(e) => if let ExprP::Lambda(l) = &e.node { params(&l.params, me, out); },
+        }
+        v.visit_children(|c| {
+            let cs = match &c { Visit::Stmt(s) => s.span, Visit::Expr(e) => e.span };
+            if !inside(cs, me) { out.push(format!("child {:?} outside parent {:?}", cs, me)); }
+            walk(c, out);
+        });
+    }
+    let mut out = Vec::new();
+    walk(Visit::Stmt(m.statement()), &mut out);
+    Ok(out)
+}
+
 /// Deterministic SmallMap scenarios against a Vec model (witness search for C11 obligations).
 fn map_check(map: &starlark_map::small_map::SmallMap<u32, u32>, model: &Vec<(u32, u32)>, what: &str) -> Result<(), String> {
     if map.len() != model.len() {
@@ -115,7 +156,26 @@ fn map_scenarios() -> Result<usize, String> {
         map_check(&m, &model, &format!("n={n} after sort_keys"))?;
         m.maybe_drop_index();
         map_check(&m, &model, &format!("n={n} after maybe_drop_index"))?;
-        count += 7;
+        // reserve across / below / above the index threshold, then keep using the map
+        for add in [0usize, 1, 10, 17, 40] {
+            let (mut m, mut model) = fresh(n);
+            m.reserve(add);
+            map_check(&m, &model, &format!("n={n} after reserve({add})"))?;
+            m.insert(5000, 1);
+            model.push((5000, 1));
+            map_check(&m, &model, &format!("n={n} after reserve({add}) + insert"))?;
+            count += 2;
+        }
+        // a map that keeps its index below the threshold (grown, then shrunk), then retain / removal
+        let (mut m, mut model) = fresh(n.max(20));
+        while m.len() > 6 {
+            m.pop();
+            model.pop();
+        }
+        m.retain(|k, _| k % 2 == 0);
+        model.retain(|(k, _)| k % 2 == 0);
+        map_check(&m, &model, &format!("n={n} shrunk below the threshold, after retain"))?;
+        count += 8;
     }
     Ok(count)
 }
@@ -235,6 +295,19 @@ fn main() {
             match r {
                 Ok(Ok(s)) => println!("{}", s),
                 _ => println!("PANIC Evaluator::call_stack() on an empty call stack"),
+            }
+        }
+        Some("spanfile") => {
+            // one source per line ("\\n" stands for a newline): "OK" | "SPAN <first violation>" | "ERR <parse error>"
+            let text = std::fs::read_to_string(&args[2]).unwrap();
+            for line in text.lines() {
+                let src = line.replace("\\n", "\n");
+                match std::panic::catch_unwind(|| span_violations(&src)) {
+                    Ok(Ok(v)) if v.is_empty() => println!("OK"),
+                    Ok(Ok(v)) => println!("SPAN {}", v[0]),
+                    Ok(Err(e)) => println!("ERR {}", e),
+                    Err(_) => println!("PANIC"),
+                }
             }
         }
         Some("frozen-call") => {
